@@ -185,6 +185,22 @@ func newFSRuntime() *fsRuntime {
 		}
 		return otto.UndefinedValue()
 	})
+	// Go functions bridged through reflection that drive script callbacks
+	r.vm.Set("heach", func(n int, cb func(int) int) int {
+		s := 0
+		for i := 0; i < n; i++ {
+			s += cb(i)
+		}
+		return s
+	})
+	r.vm.Set("hmapstr", func(xs []string, cb func(string) string) []string {
+		out := make([]string, 0, len(xs))
+		for _, x := range xs {
+			out = append(out, cb(x))
+		}
+		return out
+	})
+	r.vm.Set("hvoid", func(cb func()) { cb() })
 	r.vm.Set("hgo", func(call otto.FunctionCall) otto.Value {
 		var gv interface{}
 		switch call.Argument(0).String() {
@@ -680,6 +696,9 @@ func (e fsEngine) Exec(ci interface{}, st *Stats) (*Violation, interface{}, bool
 		r := newFSRuntime()
 		st.Runs++
 		val, err, panicked, pv := protectedRun(r.vm, c.Prog)
+		if _, injected := pv.(hostPanicVal); panicked && injected {
+			return nil, nil, true // the program's own host function panicked: allowed out
+		}
 		if panicked {
 			return viol("C02", "go_panic_escaped", "`%s`: Run panicked with %T: %v", c.Prog, pv, clip(fmt.Sprint(pv))), c, true
 		}
@@ -1205,6 +1224,9 @@ func (fsEngine) Enumerate(tier string) []interface{} {
 	}
 	for _, p := range cycleProgs {
 		out = append(out, &FSCase{Engine: "faultsweep", Fault: "cycleprobe", Prog: p})
+	}
+	for _, p := range bridgeProgs() {
+		out = append(out, &FSCase{Engine: "faultsweep", Fault: "prop", Prog: p})
 	}
 	// nesting that every implementation must survive (all kinds), and nesting that
 	// is known to kill the process (see known_findings.json): the recursive-descent
